@@ -23,6 +23,10 @@ class SDyad:
     def __init__(self, n, e):
         if n.__class__ is Bit:
             n = SInt.of(n)
+        if n.__class__ is SInt:
+            lo, hi = n.interval()
+            if max(abs(lo), abs(hi)) >= (1 << 53):
+                _inc("value may need more than 53 significant bits (binary64 arithmetic would round)")
         self.n, self.e = n, e
 
     # -------- helpers
@@ -76,6 +80,9 @@ class SDyad:
         return SDyad(abs(self.n), self.e)
 
     def __mul__(self, o):
+        if isinstance(o, float) and o != int(o):
+            m, d = o.as_integer_ratio()
+            return SDyad(self.n * m, self.e + d.bit_length() - 1)
         if isinstance(o, bool) or not isinstance(o, int):
             if isinstance(o, float) and o == int(o):
                 o = int(o)
@@ -105,6 +112,23 @@ class SDyad:
     def __truediv__(self, o):
         if isinstance(o, int) and o > 0 and o & (o - 1) == 0:
             return SDyad(self.n, self.e + o.bit_length() - 1)
+        if isinstance(o, float) and o > 0:
+            # exact only when the numerator is a multiple of the divisor's odd part; IEEE division is correctly rounded,
+            # so an exactly representable quotient is what binary64 returns
+            m, d = o.as_integer_ratio()
+            k = d.bit_length() - 1
+            n = self.n
+            if isinstance(n, int):
+                if n % m:
+                    _inc("inexact float division")
+                q = n // m
+            else:
+                if n.const % m or any(c % m for c, a in n.terms.values()):
+                    _inc("float division whose exactness is not syntactically evident")
+                q = SInt({kk: (c // m, a) for kk, (c, a) in n.terms.items()}, n.const // m).norm()
+            if k >= self.e:
+                return SDyad(q * (1 << (k - self.e)), 0)
+            return SDyad(q, self.e - k)
         _inc("division by %r" % (o,))
 
     # -------- comparisons
